@@ -48,6 +48,20 @@ def judge(specs, rec, human=None, note=None):
     return kind, payload
 
 
+def reduce_case(case, sig):
+    """Delta-debug the failing variant down to a few lines with the same root-cause signature."""
+    from .. import ddmin
+    specs = case['variants'][0]
+
+    def pred(sp):
+        rec = core.Recorder()
+        judge(list(sp), rec)
+        return sig in rec.violations
+    if not pred(specs):
+        return case
+    return {'variants': [ddmin.reduce_specs(specs, pred)]}
+
+
 @st.composite
 def mutated(draw):
     api = draw(gen.api_models(SMALL))
@@ -70,6 +84,15 @@ def mutated(draw):
         new[a] = (new[a][0], text)
         variants.append(new)
     return {'orig': specs, 'variants': variants}
+
+
+def accepts_variants(fn):
+    """Replay files of every part carry the concrete texts ({'variants': [specs]})."""
+    def wrapper(case, rec):
+        if isinstance(case, dict) and 'variants' in case and 'api' not in case and 'rule' not in case:
+            return run_variants(case, rec)
+        return fn(case, rec)
+    return wrapper
 
 
 def run_variants(case, rec):
@@ -135,6 +158,7 @@ _fast = None
 
 
 def make_run_short(alphabet):
+    @accepts_variants
     def run_short(idxs, rec):
         global _fast
         if _fast is None:
@@ -240,29 +264,36 @@ def cli_cases(draw):
     return {'variants': m['variants'][:2]}
 
 
+@accepts_variants
+def run_valid(case, rec):
+    specs, _ = render.render(case['api'], case['layout'])
+    kind, _ = judge(specs, rec)
+    rec.case(core.h64(repr(specs)), True, classes=['valid_outcome:' + kind],
+             sample=lambda: {'files': [(p, t[:400]) for p, t in specs[:1]], 'outcome': kind})
+
+
 def parts(ctx):
     ps = [
-        Part('mutate', run_variants, strategy=mutated(), n=ctx.n(2400, 80000),
+        Part('valid', run_valid, strategy=gen.frontend_cases(), n=ctx.n(800, 30000), reduce=reduce_case,
+             budget_s=ctx.n(100, 3000)),
+        Part('mutate', run_variants, strategy=mutated(), n=ctx.n(2400, 80000), reduce=reduce_case,
              budget_s=ctx.n(100, 3000)),
         Part('short', make_run_short(textmut.SHORT_ALPHABET),
-             enumerate=short_enum(ctx.n(3, 5), textmut.SHORT_ALPHABET), exhaustive=True),
-        Part('langref', run_variants, enumerate=langref_enum, exhaustive=True, shards=4),
+             enumerate=short_enum(ctx.n(3, 5), textmut.SHORT_ALPHABET), exhaustive=True, reduce=reduce_case),
+        Part('langref', run_variants, enumerate=langref_enum, exhaustive=True, shards=4, reduce=reduce_case),
         Part('cli', run_cli, strategy=cli_cases(), n=ctx.n(32, 400), budget_s=ctx.n(100, 1200)),
     ]
     if not ctx.quick:
         ps.append(Part('short_core6', make_run_short(textmut.CORE_ALPHABET),
                        enumerate=short_enum(6, textmut.CORE_ALPHABET), exhaustive=True))
-    try:
-        from . import c01
-        ps.append(Part('inject', c01.run_inject_for_c03, strategy=c01.injected(), n=ctx.n(1500, 60000),
-                       budget_s=ctx.n(100, 3000)))
-    except (ImportError, AttributeError):
-        pass
+    from . import c01
+    ps.append(Part('inject', accepts_variants(c01.run_inject_for_c03), strategy=c01.injected(), n=ctx.n(2500, 100000),
+                   budget_s=ctx.n(100, 3000), reduce=reduce_case))
     return ps
 
 
 def floors(ctx, classes, evaluations, notes):
     msgs = []
-    if classes.get('past_lexer', 0) < 0.3 * max(1, sum(v for k, v in classes.items() if k.startswith('outcome:') and 'len' not in k)) * 0:
-        msgs.append('too few mutants get past the lexer')
+    if classes.get('past_lexer', 0) < 1000:
+        msgs.append('too few mutants get past the lexer: %d' % classes.get('past_lexer', 0))
     return msgs
